@@ -1,3 +1,4 @@
+import glob
 #!/usr/bin/env python3
 """
 tools/try_seed.py <PID> <dir-with-m1..m3> [--no-suite]
@@ -109,7 +110,7 @@ def main():
         finally:
             sh(["git", "-C", "/repo", "worktree", "remove", "--force", wt])
             # restore the generated fact file (it was regenerated from the patched tree)
-            sh(["git", "checkout", "--", "lean/PyroModel/Gen/%s.lean" % pid], cwd=V)
+            sh(["git", "checkout", "--"] + sorted(glob.glob(os.path.join(V, "lean/PyroModel/Gen/%s*.lean" % pid))), cwd=V)
 
 
 def save(pid, k, d, rec):
